@@ -1,0 +1,12 @@
+//go:build verif
+
+package account
+
+import (
+	atypes "github.com/rigochain/rigo-go/ctrlers/types"
+	"github.com/rigochain/rigo-go/ledger"
+)
+
+func (ctrler *AcctCtrler) VerifLedger() *ledger.FinalityLedger[*atypes.Account] {
+	return ctrler.acctLedger.(*ledger.FinalityLedger[*atypes.Account])
+}
